@@ -75,6 +75,36 @@ def judge(case):
                 return "bad", "matching the instance at %s (order %s) returned %s" % (env, perm, res)
         if set(res) - set(env):
             return "bad", "matching returned extra parameters %s" % (sorted(set(res) - set(env)))
+    # the same through the template's own instantiation: T has been matched above, now it is called and its instance reordered
+    for kind, env, tol in envs[:3]:
+        inst = T(**env)
+        inst._operations = [inst._operations[i - 1] for i in perm]
+        try:
+            res = match_template(T, inst)
+        except BaseException as e:      # noqa: BLE001
+            return "bad", "matching T(**%s) reordered by %s raised %s: %s" % (env, perm, type(e).__name__, str(e)[:200])
+        for p, v in env.items():
+            if p not in res or abs(float(res[p]) - v) > tol * max(1.0, abs(v)):
+                return "bad", "matching T(**%s) reordered by %s returned %s" % (env, perm, res)
+        if case["edits"]:
+            ed = case["edits"][0]["x"]
+            k = ed["k"] - 1
+            inst2 = T(**env)
+            inst2._operations = [inst2._operations[i - 1] for i in perm]
+            if ed["kind"] == "rename":
+                inst2._operations[k]["op"] = "Zgate"
+            elif ed["kind"] == "remode":
+                m = inst2._operations[k]["modes"]
+                inst2._operations[k]["modes"] = [m[0] + 1] if len(m) == 1 else [m[1], m[0]] + m[2:]
+            else:
+                inst2._operations[k], inst2._operations[k + 1] = inst2._operations[k + 1], inst2._operations[k]
+            try:
+                res = match_template(T, inst2)
+                return "bad", "the instance T(**%s) edited by %s still matches: %s" % (env, ed, res)
+            except TemplateError:
+                pass
+            except BaseException as e:      # noqa: BLE001
+                return "bad", "the edited instance raised %s instead of TemplateError" % type(e).__name__
     env = envs[0][1]
     for ed in case["edits"]:
         P = build_program(tmpl, env, perm, edit=ed["x"])
